@@ -51,5 +51,13 @@ EmdVerdict(e) ==
   \cup (IF e.raised = 0 /\ ~(Abs(e.d6 - e.expected6) <= 20 + e.expected6 \div 10000) THEN {"EmdMassTimesDistance"} ELSE {})
   \cup (IF e.raised = 0 /\ ~(Abs(e.d6 - e.swap6) <= 20 + e.expected6 \div 10000) THEN {"SymmetricUnderSwap"} ELSE {})
   \cup (IF e.raised = 0 /\ ~(Abs(2 * e.d6 - e.scaled6) <= 40 + e.expected6 \div 5000) THEN {"ScalesLinearly"} ELSE {})
-Verdict(e) == CASE e.op = "thin" -> ThinVerdict(e) [] e.op = "relations" -> RelVerdict(e) [] e.op = "emd" -> EmdVerdict(e)
+\* the pairwise-distance table of a list of images (distance_matrix): symmetric, zero diagonal, entry (i, j) is the distance
+\* of images i and j computed directly; d[i][j] in 1e-6 units, direct[i][j] likewise (harness, same solver object)
+MatrixVerdict(e) ==
+  IF e.raised = 1 THEN {"MatrixTotal"}
+  ELSE LET N == 1..Len(e.d) IN
+       (IF \E i \in N : e.d[i][i] # 0 THEN {"MatrixZeroDiagonal"} ELSE {})
+       \cup (IF \E i, j \in N : ~Close6(e.d[i][j], e.d[j][i]) THEN {"MatrixSymmetric"} ELSE {})
+       \cup (IF \E i, j \in N : ~Close6(e.d[i][j], e.direct[i][j]) THEN {"MatrixAgreesWithPairwise"} ELSE {})
+Verdict(e) == CASE e.op = "thin" -> ThinVerdict(e) [] e.op = "relations" -> RelVerdict(e) [] e.op = "emd" -> EmdVerdict(e) [] e.op = "matrix" -> MatrixVerdict(e)
 =============================================================================
